@@ -181,6 +181,15 @@ def make_scenario(seed, idx, tool):
             u = utts[i_short]
             u["n"] = min(u["n"], 3)
             u["channels"] = max(u["channels"], u["n"] + 1)
+        if idx % 2 == 1:
+            # a file name with a run of blanks and a tab in it: the map's format is "<id> <path>", the path being the rest of the line
+            utts[(a + 1) % len(utts)]["spaced"] = True
+    if tool == "kaldi" and idx % 4 == 2 and kind == "pipeline" and comp["name"] == "stft":
+        # one long recording (beyond 2 x 16384 samples - any blockwise processing has block boundaries inside it), pre-emphasised
+        k = next(j for j, u in enumerate(utts) if not u.get("excluded") and j not in (i_one, i_short))
+        utts[k]["n"] = 2 * 16384 + 1500 + 37 * (idx % 7)
+        if not any(p["name"] == "preemph" for p in pre):
+            pre.insert(0, {"name": "preemph", "coeff": 0.97})
     return scn
 
 
@@ -201,7 +210,7 @@ def write_inputs(scn, sig, d):
     for u in scn["utts"]:
         x = sig[u["id"]]
         c = u["container"]
-        p = os.path.join(d, "in_%s.%s" % (u["id"], {"wav": "wav", "npy": "npy", "pt": "pt", "npz": "npz", "hdf5": "hdf5", "sph": "sph"}[c]))
+        p = os.path.join(d, ("in  %s \t_.%s" if u.get("spaced") else "in_%s.%s") % (u["id"], {"wav": "wav", "npy": "npy", "pt": "pt", "npz": "npz", "hdf5": "hdf5", "sph": "sph"}[c]))
         mono = x.shape[0] == 1 and scn["channel"] == -1
         if c == "wav":
             w = wave.open(p, "wb")
